@@ -321,7 +321,16 @@ class Facts:
             return False
         base = npath.split("::{closure")[0]
         d = self.fns.get(base)
-        return d is not None and d.get("vis") != "pub" and base not in _KNOWN
+        if not (d is not None and d.get("vis") != "pub" and base not in _KNOWN):
+            return False
+        # a pinned private function that merely *moved* (same name; its old path is gone: free function -> trait method, method of another
+        # type, other module) is not a new helper: the rules that name it still mean this function, and it is not looked through
+        ident = base.rsplit("::", 1)[-1]
+        moved = self.__dict__.setdefault("_moved_cache", {})
+        if ident not in moved:
+            old = [k for k in _KNOWN if k.rsplit("::", 1)[-1] == ident]
+            moved[ident] = bool(old) and not any(k in self.fns for k in old)
+        return not moved[ident]
 
     def body(self, npath, required=True):
         """Unique body with this normalised path (generic args stripped)."""
